@@ -66,7 +66,7 @@ theorem mobile_shift (m : Nat) (_h : m < 2) : m <<< 7 = m * 128 := by simp [Nat.
 
 theorem srcBasic_wf (v : Variant) (mib : Mib) (hm : mib.WF) (life : Option Nat) (rhl : Nat) (hr : rhl < 256) :
     (srcBasic v mib life rhl).WF := by
-  obtain ⟨m1, m2, m3⟩ := hm
+  obtain ⟨m1, m2, m3, m4⟩ := hm
   have lw := srcLifetime_wf v.capped life mib.defaultLifetimeS
   refine ⟨?_, ?_, ?_, lw.1, lw.2, hr⟩
   · simp only [srcBasic]; split <;> omega
@@ -79,7 +79,7 @@ theorem srcBasic_fields (v : Variant) (hv : v.versionFromMib = true) (mib : Mib)
 
 theorem commonOfRequest_wf (r : Request) (hr : r.WF) (mib : Mib) (hm : mib.WF) : (commonOfRequest r mib).WF := by
   obtain ⟨r1, r2, r3, r4, r5, r6, r7, r8⟩ := hr
-  obtain ⟨m1, m2, m3⟩ := hm
+  obtain ⟨m1, m2, m3, m4⟩ := hm
   refine ⟨r1, by simp [commonOfRequest], r2, r3, r4, ?_, r6, ?_⟩
   · simp only [commonOfRequest, mobile_shift _ m2]; omega
   · simp only [commonOfRequest]; split <;> omega
@@ -96,16 +96,19 @@ theorem commonOfRequest_fields (r : Request) (mib : Mib) (hm : mib.WF) :
   simp only [commonOfRequest, CommonHeader.fields, TrafficClass.fields, Spec.commonValues, mobile_shift _ hm.2.1, h1, h2]
   simp
 
+theorem TrafficClass.decodeInt_wf (x : Nat) : (TrafficClass.decodeInt x).WF := by
+  simp only [TrafficClass.WF, TrafficClass.decodeInt, and_63]; omega
+
 theorem commonLS_wf (mib : Mib) (hm : mib.WF) (hst : Nat) (hh : hst < 2) : (commonLS mib hst).WF := by
-  obtain ⟨m1, m2, m3⟩ := hm
+  obtain ⟨m1, m2, m3, m4⟩ := hm
   refine ⟨by simp [commonLS, Spec.commonNH, CommonNH_ANY], by simp [commonLS], by simp [commonLS, Spec.headerTypes, HeaderType_LS],
-    ?_, by simp [commonLS, TrafficClass.WF], ?_, by simp [commonLS], m3⟩
+    ?_, TrafficClass.decodeInt_wf _, ?_, by simp [commonLS], m3⟩
   · have : hst = 0 ∨ hst = 1 := by omega
     rcases this with h | h <;> simp [commonLS, HeaderType_LS, Spec.subTypes, h]
   · simp only [commonLS, mobile_shift _ m2]; omega
 
 theorem commonLS_fields (mib : Mib) (hm : mib.WF) (hst : Nat) :
-    (commonLS mib hst).fields = Spec.commonValues 0 6 hst ⟨false, false, 0⟩ mib.mobile 0 mib.defaultHopLimit := by
+    (commonLS mib hst).fields = Spec.commonValues 0 6 hst (TrafficClass.decodeInt mib.defaultTc) mib.mobile 0 mib.defaultHopLimit := by
   have h1 : mib.mobile * 128 / 128 = mib.mobile := by omega
   have h2 : mib.mobile * 128 % 128 = 0 := by omega
   simp only [commonLS, CommonHeader.fields, TrafficClass.fields, Spec.commonValues, mobile_shift _ hm.2.1, h1, h2,
@@ -113,15 +116,15 @@ theorem commonLS_fields (mib : Mib) (hm : mib.WF) (hst : Nat) :
   simp
 
 theorem commonBeacon_wf (v : Variant) (mib : Mib) (hm : mib.WF) : (commonBeacon v mib).WF := by
-  obtain ⟨m1, m2, m3⟩ := hm
+  obtain ⟨m1, m2, m3, m4⟩ := hm
   refine ⟨by simp [commonBeacon, Spec.commonNH, CommonNH_ANY], by simp [commonBeacon],
     by simp [commonBeacon, Spec.headerTypes, HeaderType_BEACON],
-    by simp [commonBeacon, HeaderType_BEACON, HeaderSubType_UNSPECIFIED, Spec.subTypes], by simp [commonBeacon, TrafficClass.WF],
+    by simp [commonBeacon, HeaderType_BEACON, HeaderSubType_UNSPECIFIED, Spec.subTypes], TrafficClass.decodeInt_wf _,
     ?_, by simp [commonBeacon], by simp [commonBeacon]⟩
   simp only [commonBeacon, mobile_shift _ m2]; split <;> omega
 
 theorem commonBeacon_fields (v : Variant) (hv : v.beaconFlagFixed = true) (mib : Mib) (hm : mib.WF) :
-    (commonBeacon v mib).fields = Spec.commonValues 0 1 0 ⟨false, false, 0⟩ mib.mobile 0 1 := by
+    (commonBeacon v mib).fields = Spec.commonValues 0 1 0 (TrafficClass.decodeInt mib.defaultTc) mib.mobile 0 1 := by
   have h1 : mib.mobile * 128 / 128 = mib.mobile := by omega
   have h2 : mib.mobile * 128 % 128 = 0 := by omega
   simp only [commonBeacon, hv, if_true, CommonHeader.fields, TrafficClass.fields, Spec.commonValues, mobile_shift _ hm.2.1, h1, h2,
